@@ -1,3 +1,51 @@
 package main
 
-func dispatchExtra(cmd string, args []string) bool { return false }
+import (
+	"context"
+	"fmt"
+	"os"
+	"os/exec"
+	"time"
+)
+
+func dispatchExtra(cmd string, args []string) bool {
+	switch cmd {
+	case "check":
+		code := cmdCheck(args)
+		cleanupScratch()
+		os.Exit(code)
+	case "replay":
+		code := cmdReplay(args)
+		cleanupScratch()
+		os.Exit(code)
+	case "gen":
+		code := cmdGen(args)
+		cleanupScratch()
+		os.Exit(code)
+	case "selftest":
+		code := cmdSelftest(args)
+		cleanupScratch()
+		os.Exit(code)
+	}
+	return false
+}
+
+// runLimited runs a command with a wall-clock limit and an address-space limit.
+func runLimited(cmd *exec.Cmd) error {
+	ctx, cancel := context.WithTimeout(context.Background(), 90*time.Second)
+	defer cancel()
+	// re-wrap through sh to apply ulimit -v (kB); Go binaries need a generous virtual size
+	argv := append([]string{"-c", `ulimit -v 8000000; exec "$0" "$@"`, cmd.Path}, cmd.Args[1:]...)
+	c := exec.CommandContext(ctx, "/bin/sh", argv...)
+	c.Stdin, c.Stdout, c.Stderr, c.Env, c.Dir = cmd.Stdin, cmd.Stdout, cmd.Stderr, cmd.Env, cmd.Dir
+	err := c.Run()
+	if ctx.Err() != nil {
+		return fmt.Errorf("timed out after 90s")
+	}
+	return err
+}
+
+func cmdSelftest(args []string) int {
+	fmt.Println("selftest: see /verif/selftest/run.sh")
+	return 0
+}
